@@ -379,11 +379,14 @@ def make_middleware(w: World, node: str, idx: int, kind: str, is_async: bool, pl
     return amw
 
 
-EH_KINDS = ['identity', 'replace', 'annotate']
+EH_KINDS = ['identity', 'replace', 'annotate', 'constant']
+CONSTANT_CODE_BASE = 7500     # a 'constant' handler translates every error into ONE prebuilt error object it keeps
 REPLACED_CODE_BASE = 7000
 
 
 def make_error_handler(w: World, node: str, hid: str, kind: str, is_async: bool) -> Callable[..., Any]:
+    prebuilt = JsonRpcError(code=CONSTANT_CODE_BASE + int(hid[1:]), message=f'constant-{hid}')   # no data, shared
+
     def body(request: Any, context: Any, error: Any) -> Any:
         w.rec(node, 'eh.call', hid=hid, ehkind=kind, tok=_tok_of(request), rid=request.id, code=error.code,
               message=error.message, data=None if error.data is UNSET else _jsonable(error.data),
@@ -392,6 +395,8 @@ def make_error_handler(w: World, node: str, hid: str, kind: str, is_async: bool)
             return JsonRpcError(code=REPLACED_CODE_BASE + int(hid[1:]), message=f'replaced-{hid}')
         if kind == 'annotate':
             return JsonRpcError(code=error.code, message=error.message, data=f'annotated-{hid}')
+        if kind == 'constant':
+            return prebuilt
         return error
 
     # the shape of the callable the user registers: a function, a functools.partial, an instance with __call__, and (in
